@@ -1,4 +1,5 @@
 import Mkdb.Proofs.Lock
+import Mkdb.Proofs.LockSys
 /-!
 # C13 — the background flusher only ever sees statement boundaries
 
@@ -72,3 +73,61 @@ example : AllBracketed [.sessBegin true, .sessChange, .flushBegin, .sessLog, .se
   intro a ha b hab; subst hab; simp at ha; exact ha
 
 end Mkdb.Lock
+
+namespace Mkdb.LockSys
+
+/-- **C13.system_safe** (the three goroutines around one open database: the one that opens the store
+and runs statements - DML, SELECT and CREATE TABLE -, the page flusher, and `Close` from the signal
+handler).  If the synchronisation discipline holds (`Cfg.good`: every evaluator brackets its work in
+the shared lock with the log append inside; CREATE TABLE changes the catalog and flushes it as one
+exclusive section; `flushPages` is exclusive and the only writer of the data file; `Close` closes the
+log only under the exclusive lock; the flusher is started after the header reads; a failed open stops
+the flusher it started), then under EVERY schedule of every length none of the bad events happens: no
+page or header write by another goroutine while a statement is between its lock and its release (in
+particular between its first change and the end of its log append), none while CREATE TABLE is between
+its change and the end of its own flush, no statement reaching its log append on a closed log, no flush
+before the header was read, no flusher outliving a failed open, no page change while a flush walks the
+cache.  What the model cannot exhibit - the Go memory model, `sync.RWMutex`, the scheduler, channel
+semantics of `stopFlusher` - is exercised by the race-detector runs of the check. -/
+theorem C13_system_safe (c : Cfg) (hc : c.good = true) (acts : List Act) : (run c {} acts).bad = none :=
+  no_bad c hc acts
+
+/-- **C13.source_discipline_good**: the discipline is what the extractor finds in the CURRENT source
+(`Generated/Locks.lean` is regenerated on every run; a change that drops one of the facts makes this
+`decide` fail). -/
+theorem C13_source_discipline_good : sourceCfg.good = true := by decide
+
+/-- hence the current source is safe under every schedule of the model -/
+theorem C13_current_source_safe (acts : List Act) : (run sourceCfg {} acts).bad = none :=
+  no_bad sourceCfg C13_source_discipline_good acts
+
+/-- **C13.each_fact_is_needed**: every single fact of the discipline is necessary - with that one fact
+false and all others true some schedule reaches a bad event.  These are the defects of the second
+campaign and their relatives, as schedules: an unbracketed evaluator; the log append after the release
+(`EvaluateUpdate`'s deferred append, seeded change C13 r2-patch2); CREATE TABLE as two sections (873910e);
+a flush that does not take the lock; `Close` closing the log beside a running statement (62bfa73); the
+flusher started before the header is read (34a4346); a failed open that leaves its flusher (1b978f2). -/
+theorem C13_each_fact_is_needed :
+    (run { goodCfg with bracketed := false } {} [.oNew, .oRead, .oOk, .sBegin, .fBegin, .sChange]).bad = some .changeDuringFlush ∧
+    (run { goodCfg with logInside := false } {} [.oNew, .oRead, .oOk, .sBegin, .sChange, .sEnd, .fBegin, .fWrite]).bad = some .writeInsideStatement ∧
+    (run { goodCfg with createLocked := false } {} [.oNew, .oRead, .oOk, .cBegin, .cChange, .cRelease, .fBegin, .fWrite]).bad = some .writeDuringCreate ∧
+    (run { goodCfg with createLocked := false } {} [.oNew, .oRead, .oOk, .cBegin, .cChange, .cRelease, .kStop, .kLock, .kWrite]).bad = some .writeDuringCreate ∧
+    (run { goodCfg with flushExclusive := false } {} [.oNew, .oRead, .oOk, .sBegin, .sChange, .fBegin, .fWrite]).bad = some .writeInsideStatement ∧
+    (run { goodCfg with closeLogInsideLock := false } {} [.oNew, .oRead, .oOk, .sBegin, .sChange, .kStop, .kCloseLog, .sLog]).bad = some .appendOnClosedLog ∧
+    (run { goodCfg with flusherAfterHeader := false } {} [.oNew, .fBegin, .fWrite]).bad = some .writeBeforeHeaderRead ∧
+    (run { goodCfg with failedOpenStops := false } {} [.oNew, .oRead, .oFail]).bad = some .flusherLeftBehind := by
+  decide
+
+/-- non-vacuity: under the good discipline a whole life cycle is a schedule of the model in which every
+action is enabled - open, an INSERT across a timer tick (the tick waits), a flush, CREATE TABLE with
+its own flush, a statement that `Close` waits for, `Close` - and it ends closed with no bad event. -/
+def lifeCycle : List Act :=
+  [.oNew, .oRead, .oOk, .sBegin, .sChange, .fBegin, .sLog, .sEnd, .fBegin, .fWrite, .fWrite, .fEnd,
+   .cBegin, .cChange, .cWrite, .cWrite, .cEnd, .sBegin, .sChange, .kStop, .kLock, .sLog, .sEnd, .kLock, .kCloseLog,
+   .kWrite, .kEnd]
+
+example :
+    (run goodCfg {} lifeCycle).closer = .done ∧ (run goodCfg {} lifeCycle).bad = none ∧
+    (run goodCfg {} lifeCycle).sess = .idle ∧ (run goodCfg {} lifeCycle).walOpen = false := by decide +kernel
+
+end Mkdb.LockSys
